@@ -13,14 +13,18 @@ TECHNIQUE = "Lean 4 parser model (rule for rule, total) with exact AST correspon
 LEVEL_TEXT = ("The recipe grammar is modelled rule for rule as a total Lean parser producing the AST with offsets and Python number types; it is tied to "
               "parser.parse by exact AST equality on printed descriptions under random permitted spellings, mutated texts and token soups. That every "
               "permitted spelling of one abstract description parses/compiles to the same result, and that printing then compiling recovers every string, "
-              "number, unit, preposition and amount verbatim, is checked on every generated description by the oracle.")
+              "number, unit, preposition and amount verbatim, is checked on every generated description by the oracle. The grammar itself is regenerated data (C06c): tools/gen_model.py turns the compiled grammar.peg into Gen/Grammar.lean (31 rules, "
+              "27 terminals) on every run, and parser_recognises_grammar proves, for every text, that the hand-written parser model accepts exactly what a "
+              "generic PEG recogniser with peggie's semantics accepts on that data (rule by rule; terminals_known, rules_closed, grammar_supported by "
+              "decide) - a one-token edit of grammar.peg changes the generated file and breaks the proof of the edited rule; comment-only edits do not. The "
+              "generic recogniser on the generated data is also compared with the real parser on every text of the correspondence.")
 LEVEL_NOTE = ("Trusted: Lean kernel (totality of the parser model; theorems about number/token scanners); peggie's PEG semantics as exercised by correspondence. "
               "The print/parse round trip is a theorem for whole blocks of arbitrarily nested statements (recipe_roundtrip, expr_roundtrip, stmt_roundtrip: every "
               "well-formed spelling - white space chosen independently at every node, trailing commas, parenthesised shorthand, output lists, blank lines - of an "
               "abstract block parses to its AST; two_spellings_same_ast_mod_offsets; hypothesis-free for plain names, plain_recipe_roundtrip) under explicit "
               "side conditions at the leaves (a reference not followed by blanks and '('; names that do not read as amounts); compilation of the parsed AST and "
               "strings with interpolated numbers inside nested positions rest on the lemmas of C06 plus the oracle.")
-LEAN_MODULES = ["RecipeGrid.Props.C06", "RecipeGrid.Props.C06b"]
+LEAN_MODULES = ["RecipeGrid.Props.C06", "RecipeGrid.Props.C06b", "RecipeGrid.Props.C06c"]
 SOURCES = ["recipe_grid/parser/grammar.peg", "recipe_grid/parser/ast.py", "recipe_grid/parser/__init__.py", "recipe_grid/units.py", "recipe_grid/compiler.py"]
 RULE = ("abstract descriptions of C01 crossed with two independent random spellings each (quote style per string part, whitespace at each optional position, "
         "shorthand vs nested single-input steps, trailing commas, line breaks in parentheses, fraction layout, unit letter case) plus the canonical spelling; "
@@ -45,6 +49,13 @@ def correspondence(run):
         run.groups["parser.parse"] += 1
         if real != m:
             run.disagree("parse", texts[i], reals[i][:1500], repr(m)[:1500])
+    # the grammar as regenerated data, run by the generic PEG recogniser (Props/C06c: parser_recognises_grammar), against the real parser
+    rep = run.ask([sexp.tag("peg-accepts", sexp.s(texts[i])) for i in keep])
+    for i, m in zip(keep, rep):
+        accepted = not reals[i].startswith("syntax")
+        run.groups["generated grammar (generic PEG recogniser) accept/reject"] += 1
+        if m is not accepted:        # decoded reply: True / False (None = the generic run was undefined)
+            run.disagree("peg-accepts", texts[i], "accepted" if accepted else "rejected", repr(m)[:300])
 
 
 def ast_no_offsets(t):
